@@ -143,3 +143,38 @@ def run(prog, rep):
     if sites < 13:
         raise AnalysisBroken('R-ERR: only %d mutating HDF5 call sites found (13 confirmed by hand)' % sites)
     return rule
+
+
+EXISTENCE = ('H5Lexists', 'H5Aexists', 'H5Oexists_by_name')
+
+
+def run_exists(prog, rep):
+    """existence queries on a location id turn an HDF5 error (invalid id after close, broken path) into an exception: their tri-state
+    result is .check()ed, not merely read with result()"""
+    rule = rep.rule('R-ERR-EXISTS', 'the tri-state result of H5Lexists / H5Aexists is check()ed: an error (stale handle after close) raises instead of reading as "absent"', floor=2)
+    n = 0
+    for f in sorted(prog.funcs.values(), key=lambda f: (f.file, f.line)):
+        if f.body is None or not f.q.startswith('nix::hdf5::'):
+            continue
+        for c in f.calls():
+            if c.callee.get('name') not in EXISTENCE or c.callee.get('cls'):
+                continue
+            n += 1
+            # holder variable
+            holder = None
+            p = c.p
+            while p is not None and p.k not in ('var', 'return', 'compound', 'if'):
+                p = p.p
+            checks = []
+            if p is not None and p.k == 'var':
+                lid = p.get('lid')
+                for m in f.calls():
+                    if m.get('member') and m.c and unwrap(m.c[0]).k == 'ref' and unwrap(m.c[0]).decl.get('lid') == lid:
+                        checks.append(m.callee.get('name'))
+            ok = 'check' in checks
+            rule.check(ok, '%s|%s' % (f.q, c.callee.get('name')), rep.where(c), f.label(), 'result is check()ed (%s)' % checks,
+                       'the result of %s is only read with %s: an error return (negative, e.g. the handle of a closed file) reads as "does not exist" - queries through handles that outlived close() '
+                       'return empty answers instead of throwing' % (c.callee.get('name'), checks or 'nothing'))
+    if n < 2:
+        raise AnalysisBroken('R-ERR-EXISTS: existence queries vanished (%d)' % n)
+    return rule
